@@ -355,7 +355,7 @@ def inventory(ctx):
 
 DIGEST_SCRIPT = r'''
 import sys, json, hashlib
-sys.path.insert(0, "/verif"); sys.path.insert(0, "/repo/src")
+import os; sys.path.insert(0, os.environ.get("HV_ROOT", "/verif")); sys.path.insert(0, os.environ.get("HV_REPO", "/repo") + "/src")
 from hv.checks import c13
 from hv.oracle import docs
 order = int(sys.argv[1]); seed = int(sys.argv[2]); nmax = int(sys.argv[3])
@@ -380,7 +380,7 @@ def cross_process(ctx):
     nmax = 4 if ctx.quick else 6
     procs = []
     for order, hs in ((0, "1"), (1, "4242")):
-        env = dict(os.environ, PYTHONHASHSEED=hs, PYTHONPATH=f"{core.ROOT}:/repo/src")
+        env = dict(os.environ, PYTHONHASHSEED=hs, PYTHONPATH=f"{core.ROOT}:{core.REPO}/src", HV_ROOT=core.ROOT, HV_REPO=core.REPO)
         procs.append(subprocess.Popen([sys.executable, "-c", DIGEST_SCRIPT, str(order), str(ctx.seed), str(nmax)], stdout=subprocess.PIPE, stderr=subprocess.PIPE, env=env, text=True))
     for p in procs:
         o, e = p.communicate(timeout=1200)
